@@ -39,6 +39,9 @@ class Sim:
         self.sim_time = 0.0
         self.steps = 0
         self.nontrivial = None  # scenario may set explicitly
+        # exploration depth: 1 in the quick tier and in the first part of a thorough run; 2 or 3 for the later run indices of a
+        # thorough run (scenarios may scale history lengths / sizes / actor counts by it).  Stored in replay files.
+        self.depth = 1
         self.config = {}
         self.clock = None
         self.violation = None  # first oracle failure (survives being swallowed by a Deferred)
